@@ -4,6 +4,7 @@ import numpy as np
 from harness.common import np_seed, Infra, parse_q, qlog, fstr
 from harness import spn as S
 from harness import clt as C
+from harness import histories as Hist
 from harness.build import build_from_table, table_with_py
 from harness.c01 import FAMILIES, cont_value
 
@@ -142,6 +143,20 @@ def circuit_case(ctx, k, cat_only):
     if not getattr(root, 'children', None):
         return
     assign_ids(root)
+    hist = None
+    if k % 3 == 2 and not any(len({id(c) for c in n.children}) != len(n.children) for n in S.children_first(root)[0] if getattr(n, 'children', None)):
+        # the circuit went through earlier calls of the session: MPE / sampling queries (which may fill caches), then re-assigned
+        # weights, prune, EM updates, save/load — the completion must follow the circuit as it is NOW
+        t0, o0, _, _ = S.export_net(root)
+        root, steps = Hist.apply_history(rs, root, ncols, int(rs.randint(2, 4)), count=ctx.count,
+                                         kinds=['reassign-weights', 'reassign-weights', 'prune-inplace', 'prune-copy', 'em', 'em-step-direct', 'saveload', 'pickle', 'query:mpe'],
+                                         first=['query:mpe', 'query:mpe', 'query:sample'])
+        if not getattr(root, 'children', None):
+            return
+        assign_ids(root)
+        scope = sorted(int(v) for v in root.scope)
+        hist = dict(table0=table_with_py(t0, o0), steps=steps)
+        ctx.count('circuits-completed-after-a-history')
     table, order, index, _ = S.export_net(root)
     dom = S.domain_of(order)
     X = random_evidence(rs, scope, order, dom, ncols, 12 if ctx.tier == 'quick' else 40)
@@ -149,7 +164,7 @@ def circuit_case(ctx, k, cat_only):
     ctx.case('circuit', nontrivial_key=key, sample=dict(nodes=len(table), kinds=S.describe(order), scope=scope,
                                                         a_row=[None if np.isnan(t) else float(t) for t in X[0]]))
     ctx.count('cat-leaf-circuits' if cat_only else 'mixed-leaf-circuits')
-    rep = dict(kind='c06', table=table_with_py(table, order), rows=np.where(np.isnan(X), None, X).tolist())
+    rep = dict(kind='c06', table=table_with_py(table, order), rows=np.where(np.isnan(X), None, X).tolist(), **(dict(history=hist) if hist else {}))
     try:
         Y = check_inplace(ctx, root, X, rep)
     except Exception as ex:
@@ -316,11 +331,11 @@ def run(ctx):
     quick = ctx.tier == 'quick'
     for k in range(80 if quick else 2000):
         circuit_case(ctx, k, True)
-        if ctx.n_new() >= 3:
+        if ctx.n_new(with_input_only=True) >= 3:
             return
     for k in range(50 if quick else 1000):
         circuit_case(ctx, k, False)
-        if ctx.n_new() >= 3:
+        if ctx.n_new(with_input_only=True) >= 3:
             return
     kk = 0
     for n in range(1, (4 if quick else 5) + 1):
@@ -332,7 +347,7 @@ def run(ctx):
             ncols = n + int(rs.randint(0, 3))
             scope = [int(v) for v in rs.choice(ncols, n, replace=False)]
             clt_case(ctx, rs, scope, pred, f'clt{n}')
-            if ctx.n_new() >= 3:
+            if ctx.n_new(with_input_only=True) >= 3:
                 return
     for j in range(15 if quick else 300):
         rs = np.random.RandomState(np_seed(ctx.sub_rng('cltrand', j)))
@@ -340,7 +355,7 @@ def run(ctx):
         clt0 = S.rand_clt(rs, list(range(n)))
         scope = [int(v) for v in rs.choice(n + 3, n, replace=False)]
         clt_case(ctx, rs, scope, [int(t) for t in clt0.tree], 'cltrand')
-        if ctx.n_new() >= 3:
+        if ctx.n_new(with_input_only=True) >= 3:
             return
 
 
@@ -363,8 +378,23 @@ def replay(rep):
             ok = ok and got >= best - 1e-4
         return ok
     root, order = build_from_table(r['table'])
+    if r.get('history'):
+        root, _ = build_from_table(r['history']['table0'])
+        root = Hist.replay_history(root, r['history']['steps'])
+        assign_ids(root)
+        order = S.export_net(root)[1]
     X = np.array([[np.nan if t is None else t for t in row] for row in r['rows']], dtype=np.float32)
     Y = mpe(root, X)
     msg = basic_contract(X, Y, list(root.scope), order)
     print('contract:', msg, 'completion', Y.tolist())
-    return msg is None
+    ok = msg is None
+    # the descent oracle (independent of the top-down pass) on the replayed rows
+    _, lls_all = log_likelihood(root, X, return_results=True)
+    for i in range(len(X)):
+        want, margin = descent_oracle(root, X[i], lls_all[:, i])
+        if margin > 1e-3:
+            for v, val in want.items():
+                if abs(float(Y[i, v]) - val) > 1e-6 * (1 + abs(val)):
+                    print(f'row {r["rows"][i]}: variable {v} completed with {float(Y[i, v])}, the descent gives {val}')
+                    ok = False
+    return ok
